@@ -307,6 +307,18 @@ Section Oracles.
 
   Definition reaches (a b : name) : bool := mem b (reach (length pop) [a] []).
 
+  (* components created during PrepareComponents: eager post-processor components and everything they request.
+     They are populated by the processors active at that moment only (KF-C05a). *)
+  Definition early_created (h : name) : bool :=
+    existsb (fun p => is_proc p && eager p && (Nat.eqb p h || reaches p h)) all_names.
+
+  (* eager holders (post-processor components included) with a point that violates soundness, completeness or
+     "a required point of a started component is never empty" *)
+  Definition bad_holders : list name :=
+    if ok_start then
+      filter (fun h => eager h && negb (short_target h) && negb (forallb (point_ok h) (points_of h))) all_names
+    else [].
+
   (* when Init n runs, every held dependency d that cannot reach n back has completed its Init *)
   Definition deps_first (n : name) : bool :=
     match index_of (is_init_of n) (ob_log o) 0 with
